@@ -8763,12 +8763,22 @@ func c03DepthReportAtPositioned(c *core.Check, vb *core.Func, cut *ast.IfStmt) (
 			// helper: switch len(l) { case 0: return nil … } — nil is returned for the empty list (and a nil element) only
 			okHelper := false
 			ast.Inspect(hf.Body, func(n ast.Node) bool {
-				sw, ok := n.(*ast.SwitchStmt)
-				if !ok || sw.Tag == nil {
-					return true
-				}
-				if lc, ok := core.Unparen(sw.Tag).(*ast.CallExpr); ok && hf.CalleeID(lc) == "builtin.len" {
-					okHelper = true
+				switch x := n.(type) {
+				case *ast.SwitchStmt:
+					if x.Tag != nil {
+						if lc, ok := core.Unparen(x.Tag).(*ast.CallExpr); ok && hf.CalleeID(lc) == "builtin.len" {
+							okHelper = true
+						}
+					}
+				case *ast.IfStmt:
+					// if len(l) == 0 { return nil }
+					if be, ok := core.Unparen(x.Cond).(*ast.BinaryExpr); ok && be.Op == token.EQL {
+						for _, side := range []ast.Expr{be.X, be.Y} {
+							if lc, ok := core.Unparen(side).(*ast.CallExpr); ok && hf.CalleeID(lc) == "builtin.len" {
+								okHelper = true
+							}
+						}
+					}
 				}
 				return true
 			})
